@@ -17,6 +17,19 @@ from harness.langcheck import Strata, judge, run_packed
 LEVEL = "model_checking"
 
 
+# The type a name gets from a device query: a fractional result must still be fractional after it went through a variable, a
+# helper's result or arithmetic (each line prints 1 exactly when the fraction survived; the reference is CPython on the host classes).
+RAW_TYPE_SCRIPTS = {
+    "rawt-servo-queries-through-names": "from Reduino.Actuators import Servo\narm = Servo(9)\narm.write(45.5)\nus = arm.read_us()\nmon.write(1 if us > 1013.1 else 0)\n"
+                                        "def pulse():\n    return arm.read_us()\np2 = pulse() + 0.25\nmon.write(1 if p2 > 1013.3 else 0)\nang = arm.read()\nmon.write(1 if ang > 45.25 else 0)\n"
+                                        "half = arm.read_us() / 2\nmon.write(1 if half > 506.5 else 0)\n"
+                                        "while True:\n    arm.write(90.5)\n    late = arm.read_us()\n    mon.write(1 if late > 1477.1 else 0)\n    twice = arm.read() * 2\n    mon.write(1 if twice > 180.5 else 0)\n",
+    "rawt-motor-queries-through-names": "from Reduino.Actuators import DCMotor\nm = DCMotor(4, 5, 6)\nm.set_speed(0.25)\nsp = m.get_speed()\nmon.write(1 if sp > 0.2 else 0)\n"
+                                        "def applied():\n    return m.get_applied_speed()\nap = applied() * 2\nmon.write(1 if ap > 0.4 else 0)\n"
+                                        "while True:\n    m.set_speed(-0.5)\n    back = m.get_speed()\n    mon.write(1 if back < -0.4 else 0)\n",
+}
+
+
 def check(run) -> None:
     quick = run.tier == "quick"
     run.cov["rule"] = ("a case = one TypeFlow (type sequence x site) or one expression whose result is stored in a variable, in the clean "
@@ -52,11 +65,17 @@ def check(run) -> None:
         run.count(f"prog:{p['id']}")
         judge(run, p, res[p["id"]], "program", counts, types=True)
     langprobes.run_probes(run, "C02")
+    # results of device queries stored in variables / returned by helpers (outside the Lang grammar): firmware against CPython
+    from checks.c01 import raw_values
+    raw_values(run, RAW_TYPE_SCRIPTS)
     run.cov["outcomes"] = counts
     run.cov["probe_stratum_candidates"] = {k: len(v) for k, v in st.probe.items()}
 
 
 def replay(path: str) -> int:
+    if "raw" in json.load(open(path)):
+        from checks.c01 import replay_raw
+        return replay_raw(path, RAW_TYPE_SCRIPTS, "C02")
     r = json.load(open(path))
     p = r["program"]
     res = lang.three_way([p])[p["id"]]
